@@ -218,6 +218,77 @@ example : ((refreshStorage cexEnv (cexCfg true) cexSt cexRound).1.rl 7) = some 5
 
 
 
+/-- **index_order_irrelevant.** `loadIndex` sorts the index entries stably by key before the loops
+of `Default.refresh` walk them; the model walks the document order.  For every rank function that
+gives the entries of one valid key the same rank (as the comparison of their key strings does),
+sorting changes nothing in what `addRuleList` and `keepInvalidRuleLists` produce: no entry's
+treatment depends on which other entries — invalid keys, invalid URLs, nulls, other lists — sort
+before or after it.  Together with `named_list_never_dropped`, `failed_list_keeps_previous` and
+`valid_entries_applied` this is the statement's "the valid entries of a partially invalid index
+are still applied [and the others keep their previous content]" for every arrangement of several
+invalid entries; a loop that leaves early at an invalid entry (see `keepUntilInvalidKey` below)
+does not have this property. -/
+theorem index_order_irrelevant (E : Env) (cfg : Cfg) (R : Round) (s : St) (es : List Entry)
+    (r : Entry → Nat)
+    (hr : ∀ a b, a.keyOk = true → b.keyOk = true → a.key = b.key → r a = r b) :
+    newLists E cfg R s (isort r es) = newLists E cfg R s es := by
+  apply newLists_reorder
+  apply reorder_isort
+  intro a b hne
+  by_cases h1 : a.key = b.key
+  · by_cases h2 : a.keyOk = true
+    · by_cases h3 : b.keyOk = true
+      · exact absurd (hr a b h2 h3 h1) hne
+      · exact Or.inr (Or.inr (by simpa using h3))
+    · exact Or.inr (Or.inl (by simpa using h2))
+  · exact Or.inl h1
+
+/-- The same for a whole round: an environment whose index documents are read in sorted order
+gives the same state and the same return value. -/
+theorem round_order_irrelevant (E : Env) (cfg : Cfg) (s : St) (R : Round) (r : Entry → Nat)
+    (hr : ∀ a b, a.keyOk = true → b.keyOk = true → a.key = b.key → r a = r b) :
+    refreshStorage { E with idx := fun c => (E.idx c).map (isort r) } cfg s R =
+      refreshStorage E cfg s R := by
+  have hE : ∀ max a d f x, refresh { E with idx := fun c => (E.idx c).map (isort r) } max a d f x =
+      refresh E max a d f x := fun _ _ _ _ _ => rfl
+  have hN : ∀ es, newLists { E with idx := fun c => (E.idx c).map (isort r) } cfg R s es =
+      newLists E cfg R s es := fun _ => rfl
+  unfold refreshStorage
+  simp only [hE]
+  cases h1 : (refresh E cfg.idxMax R.acceptStale s.idxDisk R.idxFresh R.idxResp).1 with
+  | none => rfl
+  | some d =>
+    cases h2 : E.idx d with
+    | none => simp [h2]
+    | some es => simp [h2, hN, index_order_irrelevant E cfg R s es r hr]
+
+/-- Non-vacuity: a rank by key (invalid keys first) satisfies the hypothesis, and the sort really
+moves entries. -/
+example : isort (fun e => if e.keyOk then e.key + 1 else 0)
+    [⟨7, true, false, 0⟩, ⟨0, false, true, 3⟩, ⟨4, true, true, 4⟩, ⟨7, true, true, 5⟩] =
+    [⟨0, false, true, 3⟩, ⟨4, true, true, 4⟩, ⟨7, true, false, 0⟩, ⟨7, true, true, 5⟩] := by decide
+example : ∀ a b : Entry, a.keyOk = true → b.keyOk = true → a.key = b.key →
+    (fun e : Entry => if e.keyOk then e.key + 1 else 0) a =
+      (fun e : Entry => if e.keyOk then e.key + 1 else 0) b := by
+  intro a b ha hb h; simp [ha, hb, h]
+
+/-- A loop over the sorted entries that LEAVES at the first entry without a valid key instead of
+skipping it (a `break` for the `continue` in `keepInvalidRuleLists`). -/
+def keepUntilInvalidKey (old : Nat → Option Nat) : (Nat → Option Nat) → List Entry → Nat → Option Nat
+  | new, [] => new
+  | new, e :: es => if e.keyOk then keepUntilInvalidKey old (keepPrev old new e) es else new
+
+/-- **early_exit_drops_list_counterexample.** Such a loop is order dependent and drops a served
+list: with an invalid-key entry sorted before the entry of list 7 whose URL is invalid, list 7 is
+not kept, while the loop of the model (and of the code) keeps it.  The harness produces this
+arrangement — invalid-key entries at every sort position next to every set of lists with an
+invalid URL — and reports it under `list-dropped:invalid-index-entry`. -/
+theorem early_exit_drops_list_counterexample :
+    keepUntilInvalidKey cexSt.rl (fun _ => none) [⟨0, false, true, 3⟩, ⟨7, true, false, 0⟩] 7 = none ∧
+    keepUntilInvalidKey cexSt.rl (fun _ => none) [⟨7, true, false, 0⟩, ⟨0, false, true, 3⟩] 7 = some 5 ∧
+    [⟨0, false, true, 3⟩, ⟨7, true, false, 0⟩].foldl (keepPrev cexSt.rl) (fun _ => none) 7 = some 5 := by
+  decide
+
 /-- **hash_failed_keeps_previous.** A hash list whose download fails (cache not usable) keeps what
 it serves and its cache file, and `refresh` reports the error. -/
 theorem hash_failed_keeps_previous (E : Env) (max : Nat) (a : Bool) (s : HSt) (f : Bool) (r : Resp)
@@ -380,6 +451,9 @@ end Agd.Refresh
 #print axioms Agd.Refresh.every_list_old_or_new
 #print axioms Agd.Refresh.named_list_never_dropped
 #print axioms Agd.Refresh.invalid_entry_drops_list_counterexample
+#print axioms Agd.Refresh.index_order_irrelevant
+#print axioms Agd.Refresh.round_order_irrelevant
+#print axioms Agd.Refresh.early_exit_drops_list_counterexample
 #print axioms Agd.Refresh.hash_failed_keeps_previous
 #print axioms Agd.Refresh.hash_old_or_new
 #print axioms Agd.Refresh.disk_always_complete
